@@ -3,7 +3,9 @@ SparseKernels.tla enumerates sparsity patterns (rows as column sets with a fill 
 coded values) with the exact dense matrix, column graph, connectivity, normal matrix and rank;
 harness/drv_sparse checks SparseMatrix build/transpose/replicate, SparseMatrixGraph, connected(),
 the RCM ordering, Envelope set / cholDec (exact zero pivots, defect) / solve / inverse.
-The block-diagonal Cholesky is checked through the homogenised normal equations in C01/C02."""
+BlockDiag.tla enumerates symmetric positive definite band blocks B = U'U with their exact factor
+(in-band zeros included); BlockDiagonal add_block / replicate / cholDec are compared block by block,
+alone and in two-block layouts (the homogenised normal equations are checked in C01/C02/C10)."""
 import json, os
 import vlib
 LEVEL = "exploration"
@@ -33,6 +35,31 @@ def run(ctx):
             for a in c["adj"]:
                 f.write("G %d %s\n" % (len(a), " ".join(map(str, a))))
             f.write("N %s\nEND\n" % " ".join(str(v) for row in c["N"] for v in row))
+    # block-diagonal kernel: exact band blocks B = U'U with their factor from spec/BlockDiag.tla
+    bcfg = os.path.join(vlib.SPEC, "_bd.cfg")
+    bconsts = {"MaxDim": 4 if q else 5, "Diags": "{1, 2}" if q else "{1, 2, 3}", "Keep": 29 if q else 7, "KeepZ": 7 if q else 2, "Seed": ctx.seed}
+    with open(bcfg, "w") as f:
+        f.write("SPECIFICATION Spec\nCONSTANTS\n" + "".join("  %s = %s\n" % kv for kv in bconsts.items()) + "INVARIANT Emit\nINVARIANT Laws\nCHECK_DEADLOCK FALSE\n")
+    rb = vlib.tlc("BlockDiag", "_bd.cfg", timeout=2400)
+    os.remove(bcfg)
+    if rb.outcome == "invariant":
+        ctx.violation("model|BlockDiag|" + str(rb.violated), rb.trace_text[:1500])
+    elif rb.outcome != "ok":
+        raise vlib.ModelFailure("BlockDiag: %s\n%s" % (rb.outcome, rb.out[-2000:]))
+    bcases = sorted(rb.cases, key=lambda c: json.dumps(c, sort_keys=True))
+    nztn = sum(1 for c in bcases if c["ztn"])
+    ctx.note("BlockDiag.tla: %d states, %d blocks (%d with an in-band zero followed by a non-zero)" % (rb.distinct, len(bcases), nztn))
+    if not bcases or not nztn:
+        raise vlib.ModelFailure("BlockDiag.tla emitted %d blocks, %d with zero-then-nonzero pivot rows" % (len(bcases), nztn))
+    ctx.add("bd_blocks", len(bcases))
+    ctx.add("bd_blocks_zero_then_nonzero", nztn)
+    with open(path, "a") as f:
+        for c in bcases:
+            pb = [v for row in c["B"] for v in row]
+            pu = [v for row in c["U"] for v in row]
+            f.write("BD %d %d %d\n%s\n%s\nEND\n" % (c["dim"], c["band"], len(pb), " ".join(map(str, pb)), " ".join(map(str, pu))))
+    ncs = len(cases)
+    cases = cases + [dict(c, bd=True, rank=c["dim"], n=c["dim"], A="block dim %d band %d packed %s" % (c["dim"], c["band"], c["B"]), fill="factor %s" % c["U"], connected=True) for c in bcases]
     summ = None
     for kind in ("asan", "plain"):
         bdir = vlib.build(kind, ["drv_sparse"])
@@ -46,12 +73,12 @@ def run(ctx):
         for x in recs:
             if x.get("t") == "fail":
                 c = cases[x["case"]]
-                feat = "singular" if c["rank"] < c["n"] else "regular"
+                feat = ("zero-in-band" if c["zib"] else "dense-band") if c.get("bd") else ("singular" if c["rank"] < c["n"] else "regular")
                 ctx.violation("sparse|%s|%s" % (x["check"], feat), "pattern %s (fill %s): %s" % (c["A"], c["fill"], x["msg"]), replay={"case": c})
-    nontriv = sum(1 for c in cases if c["rank"] < c["n"] or not c["connected"] or any(0 in row for row in c["A"]))
+    nontriv = sum(1 for c in cases[:ncs] if c["rank"] < c["n"] or not c["connected"] or any(0 in row for row in c["A"])) + nztn
     if cases:
         ctx.sample({k: cases[len(cases) // 2][k] for k in ("A", "fill", "adj", "connected", "rank")})
     ctx.assume("values are small integers, so the exact rank is numerically unambiguous; ASan/UBSan observe the memory accesses of the kernels")
-    return {"evaluations": len(cases), "distinct_nontrivial": nontriv,
+    return {"evaluations": len(cases), "block_diagonal_blocks": len(bcases), "distinct_nontrivial": nontriv,
             "rule": "all patterns with up to 4 rows over up to 4 columns x 3 fill orders (thinned by Keep = %s) and edge networks (rows of 2 or 3 columns) over 5..7 columns with up to 8 rows (thinned by KeepBig); non-trivial = has a structural zero, is rank deficient or has a disconnected graph" % consts["Keep"],
             "tlc_states": r.distinct, "checks": summ["checks"] if summ else {}, "exhaustive": not q}
